@@ -26,6 +26,9 @@ mod client;
 mod codec;
 mod pool_tracker;
 
+#[cfg(eigerco_lumina_verif)]
+pub use codec::verif_hooks as codec_verif_hooks;
+
 use crate::p2p::P2pError;
 use crate::p2p::shrex::client::Client;
 use crate::p2p::shrex::pool_tracker::{EdsNotification, PoolTracker};
